@@ -72,7 +72,9 @@ Print Assumptions C14_refuted_optional_parent.
 
 (** outside the four known classes, for every route table (any nesting of tuples and of
     routes, any number of siblings, OptionalParamSegments as a top-level suffix of the
-    segment tuple of routes without children), with or without base path, and every
+    segment tuple of routes without children), with or without base path — the empty base
+    [Some ""] that <Routes> / <FlatRoutes> always hand to RouteDefs::new_with_base when
+    <Router> has no base is outside the known classes, i.e. inside this theorem — and every
     request path: the router matches exactly when the table does, and it does not panic *)
 Theorem C14_match_iff_flat_except_known :
   forall base rs p,
